@@ -216,8 +216,26 @@ pub fn guarded<T>(f: impl FnOnce() -> T) -> Result<T, String> {
     }
 }
 
+/// `a ;; b ;; c` = a history: the op lines a, b, c are executed back to back in this process (the outputs
+/// joined by ` ;; `), so that state surviving between calls (caches, statics, thread-locals) shows as a
+/// difference from the model, which evaluates every op on its own
 fn exec_guarded(prop: &dyn Prop, line: &str) -> Outcome {
     let line = strip_prefix(prop, line);
+    if line.contains(" ;; ") {
+        let mut outs = vec![];
+        let mut all = Outcome::ok("");
+        for part in line.split(" ;; ") {
+            let o = exec_one(prop, part);
+            outs.push(o.out.clone());
+            all.fails.extend(o.fails);
+        }
+        all.out = if outs.iter().any(|o| o == "-") { "-".to_string() } else { outs.join(" ;; ") };
+        return all;
+    }
+    exec_one(prop, line)
+}
+
+fn exec_one(prop: &dyn Prop, line: &str) -> Outcome {
     match guarded(|| prop.exec(line)) {
         Ok(o) => o,
         Err(info) => {
